@@ -18,7 +18,8 @@ from main import Result
 
 EXTS = [".abstract", ".keywords", ".ask", ".3d"]
 BLOCK = {".abstract": "ABSTRACT", ".keywords": "KEYWORDS", ".ask": "ASK", ".3d": "3D"}
-CONTENTS = [b"one line\n", b"two\nlines\n", b"trailing space  \nand\ttab\t\n", b"no final newline", b"+INFO: fake\n+ADMIN:\n",
+BIG = b"".join(b"bd line %05d abcdefghijabcdefghijabcdefghijabcdefghijabcdefghijabcdefghij\n" % i for i in range(330))   # ~25 KB: beyond the 20480 read-ahead
+CONTENTS = [BIG, b"one line\n", b"two\nlines\n", b"trailing space  \nand\ttab\t\n", b"no final newline", b"+INFO: fake\n+ADMIN:\n",
             b" leading space\n", b"caf\xc3\xa9 \xff\n", b"a\r\nb\r\n", b"x\n\ny\n", b""]
 
 
@@ -106,6 +107,11 @@ def run(ctx):
                         lines = lines[:-1]
                     joined = "\n".join(lines)
                     exp = [x.encode("utf-8", "surrogateescape") for x in joined.splitlines()]
+                    if len(c) > 20480 and len(bl) == 1 and bl[0][1] != exp:
+                        # beyond the read-ahead cap the block may stop early, but only after >= 20480 characters and only at a line end
+                        got_ = bl[0][1]
+                        if got_ == exp[:len(got_)] and sum(len(x) + 1 for x in got_) >= 20480:
+                            continue
                     if len(bl) != 1 or bl[0][1] != exp:
                         res.violation("C15:sidecar-block", "a sidecar block's lines differ from the sidecar file's lines", inp,
                                       observed=bl, required=(BLOCK[ext], exp), replay=rp)
